@@ -28,6 +28,7 @@ func init() {
 			sc.Sub = "sequential"
 			sc.SetInt("k", g.Range(2, 4))
 			sc.SetInt("seqmode", 1)
+			sc.SetInt("raw", g.Intn(2))
 			return sc
 		},
 		Valid: c12Valid,
@@ -44,6 +45,7 @@ func init() {
 			genChain(g, sc, g.PickInt(1, 1, 2, 3), nvalues(script), "sync", coldDeterministic)
 			sc.Sub = "concurrent"
 			sc.SetInt("k", g.Range(2, 3))
+			sc.SetInt("raw", g.Intn(2))
 			return sc
 		},
 		Valid: c12Valid,
@@ -67,6 +69,7 @@ func init() {
 			sc.Sub = "opvalue"
 			sc.SetInt("order", g.Intn(6))
 			sc.SetInt("seqmode", 1)
+			sc.SetInt("raw", g.Intn(2))
 			return sc
 		},
 		Valid: c12Valid,
@@ -77,7 +80,7 @@ func init() {
 // collectTrace subscribes once and runs to completion; returns the trace.
 func collectTrace(e *Env, o ro.Observable[int], name string) (*Rec, *SubHandle) {
 	rec := e.NewRec(name)
-	h := e.Subscribe(o, rec.Observer(), nil)
+	h := e.Subscribe(o, rec.Obs(), nil)
 	e.SettleFor(200 * Unit)
 	if !e.K.Capped() && (!h.Ret() || h.Sub() == nil || !h.Sub().IsClosed()) {
 		// the pipeline does not end by itself within the budget (e.g. unlimited Retry over a failing
@@ -158,7 +161,7 @@ func runC12(e *Env) {
 	for n := 0; n < k; n++ {
 		rec := e.NewRec(fmt.Sprintf("sub%d", n))
 		recs = append(recs, rec)
-		e.Subscribe(p, rec.Observer(), nil)
+		e.Subscribe(p, rec.Obs(), nil)
 	}
 	e.SettleFor(300 * Unit)
 	if e.K.Capped() {
